@@ -39,6 +39,8 @@ func runC09(c *Ctx) {
 	c.Rule("C09.R4", "client count incremented before connecting is decremented whenever no client is handed out", 2)
 	c.Rule("C09.R5", "stream destroy listeners run once", 1)
 	c.Rule("C09.R6", "no connection is closed while the pool mutex is held (the synchronous close handler takes the same mutex)", 3)
+	c.Rule("C09.R7", "a client stream is removed from its connection's stream table before its listeners are notified", 1)
+	defer c09UnregisterBeforeNotify(c)
 	c.NotDecided = append(c.NotDecided, "equality of counters with the truth over arbitrary histories", "idle-timeout / keep-alive behaviour", "the multiplex and binding pools (connections are shared or bound by design, not leased)")
 	c.Assumptions = append(c.Assumptions, "connection.Close delivers its close event synchronously to the registered listeners (so `closed` is set before OnDestroyStream re-pools)", "sync.Mutex semantics")
 
@@ -611,4 +613,71 @@ func c09NoCloseUnderLock(c *Ctx) {
 			}
 		}
 	}
+}
+
+// c09UnregisterBeforeNotify (R7): a client stream leaves its connection's stream table before anybody is told it ended.
+// The multiplex and binding pools decide in OnDestroyStream / OnResetStream what to do with a draining (go-away)
+// connection by asking the connection how many requests are still active (ActiveRequestsNum = len(clientStreams)). The
+// stream that is ending must not be counted any more at that moment, otherwise the last request of a go-away connection
+// never triggers its close and the connection leaks outside the pool. Clause: in xStream.ResetStream the removal from
+// clientStreams executes (not deferred) before BaseStream.ResetStream notifies the listeners; handleResponse deletes
+// before OnReceive (C02.R3).
+func c09UnregisterBeforeNotify(c *Ctx) {
+	pkg := "pkg/stream/xprotocol"
+	fn := c.M(pkg, "xStream", "ResetStream")
+	if fn == nil {
+		c.Unresolved("C09.R7", "xStream.ResetStream")
+		return
+	}
+	deletes := func(f *ssa.Function) bool {
+		found := false
+		forEachInstr(f, false, func(_ *ssa.Function, in ssa.Instruction) {
+			if call, ok := in.(*ssa.Call); ok {
+				if b, isB := call.Call.Value.(*ssa.Builtin); isB && b.Name() == "delete" {
+					if _, fld, _, okf := loadedField(call.Call.Args[0]); okf && fld == "clientStreams" {
+						found = true
+					}
+				}
+			}
+		})
+		return found
+	}
+	var notify ssa.Instruction
+	for _, cs := range callsIn(fn, false, func(cc *ssa.CallCommon) bool {
+		f := cc.StaticCallee()
+		return f != nil && f.Name() == "ResetStream" && strings.Contains(f.String(), "BaseStream")
+	}) {
+		notify = cs.Instr
+	}
+	if notify == nil {
+		c.Unresolved("C09.R7", "BaseStream.ResetStream call in xStream.ResetStream")
+		return
+	}
+	before, deferred := false, false
+	forEachInstr(fn, false, func(_ *ssa.Function, in ssa.Instruction) {
+		ci, ok := in.(ssa.CallInstruction)
+		if !ok {
+			return
+		}
+		isDel := false
+		if b, isB := ci.Common().Value.(*ssa.Builtin); isB && b.Name() == "delete" {
+			if _, fld, _, okf := loadedField(ci.Common().Args[0]); okf && fld == "clientStreams" {
+				isDel = true
+			}
+		}
+		if callee := ci.Common().StaticCallee(); callee != nil && callee.Blocks != nil && callee.Pkg == fn.Pkg && deletes(callee) {
+			isDel = true
+		}
+		if !isDel {
+			return
+		}
+		if _, isDefer := in.(*ssa.Defer); isDefer {
+			deferred = true
+			return
+		}
+		if existsPath(fn, in, func(x ssa.Instruction) bool { return x == notify }, nil) != nil {
+			before = true
+		}
+	})
+	c.Check("C09.R7", funcKey(fn)+":unregistered-before-notify", notify.Pos(), before && !deferred, "the stream is removed from clientStreams before the listeners are notified", "the stream being reset is still registered in clientStreams while its listeners run: a pool that closes a draining go-away connection when ActiveRequestsNum()==0 still counts it, never closes the connection, and the connection leaks outside the pool")
 }
